@@ -550,6 +550,7 @@ class Exec:
             for fr in getattr(self, 'loop_frames', []):
                 if loc.bid in fr.pre_boxes and loc.bid not in fr.havoced:
                     raise Unsupported('local container %s mutated in a loop through an alias the frame analysis missed' % loc.bid)
+            self.st.ghost.pop('sortkey:%s' % loc.bid, None)       # a written list is no longer known to be sorted
             self.st.box[loc.bid] = t
 
     def _note_write(self, what, line):
@@ -1220,6 +1221,13 @@ class Exec:
         return self.equal(a, b, line)
 
     def equal(self, a, b, line):
+        if isinstance(a, (tuple, list)) and isinstance(b, (tuple, list)) and type(a) is type(b):
+            if len(a) != len(b):
+                return False
+            rs = [self.equal(x, y, line) for x, y in zip(a, b)]
+            if all(isinstance(r, bool) for r in rs):
+                return all(rs)
+            return z3.And(*[r if not isinstance(r, bool) else z3.BoolVal(r) for r in rs])
         if not self.is_sym(a) and not self.is_sym(b):
             if isinstance(a, (Lam, Dotted, Bound)) or isinstance(b, (Lam, Dotted, Bound)):
                 raise Unsupported('equality on functions')
@@ -1409,6 +1417,14 @@ class Exec:
             base = self.materialize(base)
         if not self.is_sym(base) and not self.is_sym(lo) and not self.is_sym(hi):
             return base[lo:hi]
+        us = getattr(self.world, 'user_slice', None)
+        if us is not None and isinstance(base, V):
+            r = us(self, base, lo, hi, line)
+            if r is not None:
+                return r
+        if isinstance(base, V) and isinstance(base.ty, Rec) and not self.is_sym(lo) and not self.is_sym(hi):
+            fs = list(base.ty.fields.items())[lo:hi]        # a slice of a tuple is the tuple of those components
+            return tuple(self.wrap(base.ty.get(base.t, f), t) for f, t in fs)
         if isinstance(base, C) and isinstance(base.ty, ListOf):
             ty = base.ty
             t = self.read(base)
@@ -1778,6 +1794,8 @@ class Exec:
         for nm in self._assigned_names(s):
             if nm in st.env:
                 v = st.env[nm]
+                if v is UNBOUND:
+                    continue
                 if isinstance(v, V):
                     st.env[nm] = V(z3.Const(self.path.fresh_name('hv_' + nm), v.t.sort()), v.ty)
                 elif isinstance(v, C):
@@ -1797,6 +1815,9 @@ class Exec:
     MUTATORS = {'add', 'append', 'remove', 'discard', 'clear', 'update', 'extend', 'pop', 'sort', 'insert', 'difference_update',
                 'intersection_update', 'setdefault', 'popitem', 'reverse', '__setitem__', '__delitem__'}
 
+    NON_MUTATING_BUILTINS = {'filter', 'map', 'len', 'sorted', 'list', 'set', 'tuple', 'dict', 'any', 'all', 'sum', 'min', 'max', 'isinstance',
+                             'str', 'int', 'bool', 'enumerate', 'zip', 'range', 'print', 'repr', 'abs', 'round', 'getattr', 'hasattr'}
+
     def _mutated_boxes(self, s):
         """ids of the local containers the loop body may mutate: receivers of mutating method calls, bases of
         subscript stores, augmented-assignment targets and anything passed to a call, closed under name-to-name
@@ -1807,6 +1828,8 @@ class Exec:
             if isinstance(n, ast.Call):
                 if isinstance(n.func, ast.Attribute) and isinstance(n.func.value, ast.Name) and n.func.attr in self.MUTATORS:
                     names.add(n.func.value.id)
+                if isinstance(n.func, ast.Name) and n.func.id in self.NON_MUTATING_BUILTINS:
+                    continue
                 for a in list(n.args) + [k.value for k in n.keywords]:
                     if isinstance(a, ast.Starred):
                         a = a.value
